@@ -615,14 +615,14 @@ def event_inputs_to_events(
             )
         event = Event(eventInput.eventType)
         for eventSetList in eventInput.outgoingEventSets:
-            event.event_sets.add(
-                EventSet(
-                    [
-                        eventSet.eventType
-                        for eventSet in eventSetList
-                        for _ in range(eventSet.count)
-                    ]
-                )
+            # update through the event so that the logic gate tree is
+            # recalculated from the loaded event sets when it is next needed
+            event.update_event_sets(
+                [
+                    eventSet.eventType
+                    for eventSet in eventSetList
+                    for _ in range(eventSet.count)
+                ]
             )
         for eventSetList in eventInput.incomingEventSets:
             event.in_event_sets.add(
